@@ -116,7 +116,18 @@ def str_case(rng, pair, slot):
     q = rng.choice([2, 2, 1, 3])
     case = {'tok': {'kind': 'qg', 'q': q, 'pad': rng.choice([1, 1, 0]), 'rs': rng.choice([0, 0, 1])}}
     which = rng.random()
-    if which < 0.6:
+    overlap_on_strings = which >= 0.88
+    if overlap_on_strings:
+        # the OverlapFilter / overlap_join over short strings with a set-mode q-gram tokenizer: with padding a string of
+        # n characters has n + q - 1 q-grams, the empty string has one
+        case['tok']['rs'] = 1
+        if rng.random() < 0.5:
+            case.update(kind='ftab', api='OVERLAP.filter_tables', meas='OVERLAP', filt='OVERLAP',
+                        op=rng.choice(['>=', '>', '=']), sc=rng.choice([0, 1]))
+        else:
+            case.update(kind='join', api='overlap_join', meas='OVERLAP', filt='NONE',
+                        op=rng.choice(['>=', '>', '=']), sc=rng.choice([1, 1, 0]))
+    elif which < 0.6:
         case.update(kind='join', api='edit_distance_join', meas='EDIT_DISTANCE', filt='NONE',
                     op=rng.choice(['<=', '<=', '<', '=']), sc=rng.choice([1, 1, 0]))
         if q == 2 and case['tok']['pad'] == 1 and rng.random() < 0.3:
@@ -129,6 +140,8 @@ def str_case(rng, pair, slot):
         case['tok']['rs'] = 0          # C04 assumes bags of q-grams for edit distance
         case['prewarm'] = 1 if rng.random() < 0.3 else 0   # the filter object was used before in set mode
     case['t'] = rng.choice([[0, 1], [1, 1], [1, 1], [2, 1], [3, 1], [3, 2], [5, 2]])
+    if overlap_on_strings:
+        case['t'] = rng.choice([[1, 1], [2, 1], [3, 1], [3, 2], [4, 1]])
     case['ae'] = rng.choice([1, 0])
     case['am'] = rng.choice([0, 1])
     case['lout'] = rng.choice(OUTS)
